@@ -7,6 +7,7 @@ From Coq Require Import Reals Lra List Bool Arith String.
 From CB Require Import Base.Vec3 Model.C09_Transform Proofs.C09_Leaves Proofs.C09_Commute Proofs.C09_Equivariance Proofs.C09_Traverse Proofs.C09_Heap Proofs.C09_ArcLength Proofs.C09_Main Proofs.C09_Output.
 From CB Require Import Gen.C09.Tables.
 From CB Require Import Proofs.SourceEqTac Gen.C09.Source Proofs.C09_SourceEq.
+From CB Require Model.C09_Sphere Proofs.C09_Sphere.
 Import ListNotations.
 Open Scope R_scope.
 
@@ -291,6 +292,63 @@ Qed.
 Example C09_source_is_model_hyp_sat : valid (TMirror (0, 0, 1) vzero) /\ (2 <> 0).
 Proof. split; [unfold valid, norm2; vec_simpl; lra | lra]. Qed.
 
+(** ** 9. the centre (and radius point) of a sphere shape (Model/C09_Sphere.v: a heap of Point objects, operations as
+    two faces of references, Operation.mirror = mirror the parts then swap the faces)
+
+    The repaired code (fix 77e7025) keeps the REFERENCE to the Point object at corner 0 of the bottom face of loft 0,
+    taken at construction.  For every shape whose references are pairwise distinct ([wf]) and every sequence of
+    transformations ([TApply f]: translate / rotate / scale, [TMirror f]: mirror, with arbitrary leaf maps f):
+    the kept reference holds the composed image of the centre; the positional lookup of the old code agrees when the
+    number of mirrors is even; every other remembered Point object of the shape (the radius point) follows in the same
+    way and no other cell is touched; a copy (fresh cells, same reference structure, kept reference remapped) has the
+    same centre, follows the transformations applied to it, and leaves the original's centre where it was.
+
+    (the names of Model/C09_Sphere.v - heap, shape, TMirror, run, compose ... - are imported for this section only; they
+    would shadow those of Model/C09_Transform.v) *)
+Section SphereCentre.
+Import CB.Model.C09_Sphere CB.Proofs.C09_Sphere.
+Definition C09_sphere_center_follows_stmt : Prop :=
+  forall (P : Type) (ts : list (step P)) (sh : shape) (h : heap P) (r : nat) (c : P),
+    wf sh = true -> keep_center sh = Some r -> center_by_reference r h = Some c ->
+    let st := run ts (sh, h) in
+    let cp := shape_copy sh h in
+    let st' := run ts cp in
+    center_by_reference r (snd st) = Some (compose ts c) /\
+    (Nat.even (mirrors ts) = true -> center_by_position (fst st) (snd st) = Some (compose ts c)) /\
+    (forall r' c', In r' (shape_refs sh) -> center_by_reference r' h = Some c' ->
+       center_by_reference r' (snd st) = Some (compose ts c')) /\
+    (forall r', ~ In r' (shape_refs sh) -> center_by_reference r' (snd st) = center_by_reference r' h) /\
+    (keep_center (fst cp) = Some (copy_ref h r) /\
+     center_by_reference (copy_ref h r) (snd cp) = Some c /\
+     center_by_reference (copy_ref h r) (snd st') = Some (compose ts c) /\
+     center_by_reference r (snd st') = Some c /\
+     (Nat.even (mirrors ts) = true -> center_by_position (fst st') (snd st') = Some (compose ts c))).
+Theorem C09_sphere_center_follows : C09_sphere_center_follows_stmt.
+Proof. exact sphere_center_follows. Qed.
+
+(** the hypotheses are satisfiable: a miniature of the eighth sphere (core and shell operation, sixteen Point objects) *)
+Example C09_sphere_center_follows_hyp_sat :
+  wf mini_shape = true /\ four_corners mini_shape = true /\ in_heap mini_shape mini_heap = true /\
+  keep_center mini_shape = Some 0%nat /\ center_by_reference 0 mini_heap = Some (0, 0, 0)%Z /\
+  center_by_position mini_shape mini_heap = Some (0, 0, 0)%Z.
+Proof. exact mini_wf. Qed.
+
+(** the old code: "the positional lookup follows every sequence" is false - after a single mirror (reflection in the
+    plane x = 1 of the miniature, or of a copy of it) corner 0 of the bottom face of operation 0 is what was corner 0
+    of its top face, (2,0,1), while the kept reference holds the image (2,0,0) of the centre *)
+Definition C09_sphere_center_by_position_refuted_stmt : Prop :=
+  ~ (forall (ts : list (step pt)) sh h c,
+       wf sh = true -> center_by_position sh h = Some c ->
+       center_by_position (fst (run ts (sh, h))) (snd (run ts (sh, h))) = Some (compose ts c)) /\
+  (let st := run [TMirror mirror_x1] (mini_shape, mini_heap) in
+   center_by_reference 0 (snd st) = Some (2, 0, 0)%Z /\ center_by_position (fst st) (snd st) = Some (2, 0, 1)%Z) /\
+  (let st := run [TMirror mirror_x1] (shape_copy mini_shape mini_heap) in
+   center_by_reference (copy_ref mini_heap 0) (snd st) = Some (2, 0, 0)%Z /\
+   center_by_position (fst st) (snd st) = Some (2, 0, 1)%Z).
+Theorem C09_sphere_center_by_position_refuted : C09_sphere_center_by_position_refuted_stmt.
+Proof. exact center_by_position_refuted. Qed.
+End SphereCentre.
+
 Print Assumptions C09_leaf_affine.
 Print Assumptions C09_rotation_spec.
 Print Assumptions C09_reflection_spec.
@@ -312,3 +370,5 @@ Print Assumptions C09_copy_fresh_classes.
 Print Assumptions C09_args_unmodified.
 Print Assumptions C09_tables_nonempty.
 Print Assumptions C09_source_is_model.
+Print Assumptions C09_sphere_center_follows.
+Print Assumptions C09_sphere_center_by_position_refuted.
